@@ -72,6 +72,8 @@ structure Variant where
   lUPromote : Lbl := 0
   uPost : List Lbl := []
   uSleep : List Lbl := []
+  arrMax : Nat := 0         -- arrayer `max_array_size` (0 = larger than any group): a poll hands over at most this many
+                            -- jobs of the (single) group and puts the remainder back, still stale
 
 /-! ### thread states -/
 inductive SPh where
@@ -309,9 +311,12 @@ def stepU (V : Variant) (s : State) (k : Nat) : Option State :=
         | some (s', u') => some { s' with sub := some u' }
     else none
 
-/-- one poll of the (coarse) arrayer thread: every queued job is handed to the executor -/
-def stepA (s : State) : Option State :=
-  if s.arrAlive then some { s with pending := s.pending ++ s.queue, queue := [] } else none
+/-- one poll of the (coarse) arrayer thread: the queued group is handed to the executor, at most
+`max_array_size` jobs of it (`submit_pending_jobs` re-queues the remainder under its old timestamp);
+`arrayer.num_pending` is the length of the queue before and after the step -/
+def stepA (V : Variant) (s : State) : Option State :=
+  let n := if V.arrMax = 0 then s.queue.length else V.arrMax
+  if s.arrAlive then some { s with pending := s.pending ++ s.queue.take n, queue := s.queue.drop n } else none
 
 inductive Ev where
   | S
@@ -324,7 +329,7 @@ def step (V : Variant) (s : State) : Ev → Option State
   | .S => stepS V s
   | .M k => stepM V s k
   | .U k => stepU V s k
-  | .A => stepA s
+  | .A => stepA V s
 
 def run (V : Variant) : State → List Ev → State
   | s, [] => s
